@@ -130,13 +130,14 @@ CLAIMED = {
         note="partition index conventions (bMappedIndices), vertex data arithmetic and validity of the written file are not decided"),
     "C13": dict(
         cat="other", ref="DESIGN.md §12.6 (C13 thin partial)",
-        technique="static analysis: sibling agreement of Set<X>ForShape / Get<X>ForShape pairs on per-vertex storage fields (read/write events by summary composition through the helper functions)",
+        technique="static analysis: sibling agreement of Set<X>ForShape / Get<X>ForShape pairs on per-vertex storage fields (read/write events by summary composition through the helper functions); interval analysis of Create(version, ...) under version partial evaluation against the wire width of the counters",
         text="Thin partial, added during the build: for each of the seven setter/getter pairs of NifFile, every per-vertex storage "
              "field the getter reads (NiGeometryData arrays, packed BSVertexData fields, through the raw-array refresh helpers) is a "
              "field the setter writes, for both storage kinds. It is a necessary condition of 'what is written is what is read "
              "back' and nothing more: bit-exactness, half-float tolerance, triangle order, count preservation and save/reload "
-             "equality quantify over runtime arrays and are NOT decided by this check.",
-        note="only the storage-field agreement clause is decided; every numeric clause of C13 is outside static reach"),
+             "equality quantify over runtime arrays and are NOT decided by this check. R13.2: in every version region the clamp that "
+             "Create applies to a counter equals the capacity of the integer Sync writes it through (Create drops nothing the format holds).",
+        note="only the storage-field agreement and clamp/capacity clauses are decided; every numeric clause of C13 is outside static reach"),
     "C14": dict(
         cat="other", ref="DESIGN.md §5 C14",
         technique="static analysis: taint/effect analysis of the clone functions (source-derived values vs transitive receiver mod-sets), clone=>re-link pairing, enumerator coverage of CloneChildren",
